@@ -397,8 +397,7 @@ def run(ctx, report):
     try:
         run_templates(ctx, report)
     except AnalysisError as e:
-        if not clean:
-            raise
+        # with or without evaluated witnesses the verdict of this run is the evaluation's
         report.level = 'other'
         RE.note('the template analysis stopped (%s): this run is decided by the evaluation alone' % e)
         for r in report.rules:
